@@ -501,3 +501,24 @@ Section Abs.
                end) fs)
     end.
 End Abs.
+
+(* ---------- schemas the bitproto grammar can express (on top of Schema.wf) ---------- *)
+(* an alias names bool / byte / uintN / intN / an array; an array element is never directly
+   an array (two-dimensional arrays only through an alias) *)
+Definition alias_target_ok (t : ty) : bool :=
+  match t with TBool | TByte | TUint _ | TInt _ | TArr _ _ _ => true | _ => false end.
+Definition elem_ok (t : ty) : bool :=
+  match t with TArr _ _ _ => false | _ => true end.
+
+Fixpoint cwf (t : ty) : bool :=
+  match t with
+  | TAlias u => alias_target_ok u && cwf u
+  | TArr _ _ e => elem_ok e && cwf e
+  | TMsg _ fs =>
+      (fix go (l : list (Z * ty)) : bool :=
+         match l with
+         | [] => true
+         | kf :: r => cwf (snd kf) && go r
+         end) fs
+  | _ => true
+  end.
